@@ -235,11 +235,16 @@ def main():
     impl = vf.build_impl()
     model = vf.build_model("C18") if model_ok else None
 
+    xcheck = []                                    # (case line, extracted model's output) pairs re-evaluated inside Coq
+
     def both(lines, label):
         io = vf.run_impl(impl, "C18", lines, deadline_ms=2000)
         if model:
             mo = vf.run_model(model, lines)
             vf.correspond(c, label, lines, io, mo)
+            for i in sorted(set([0, len(lines) // 3, len(lines) // 2, (2 * len(lines)) // 3, len(lines) - 1])):
+                if len(lines[i]) < 400:
+                    xcheck.append((lines[i], mo[i]))
         c.count(len(lines), label)
         return [[int(t) for t in o.split()] for o in io]
 
@@ -578,6 +583,41 @@ def main():
         f, rest = ref_token_r(a, b)
         expect("types.CstrTokenR", "tokenr-ref", ln, r, [0, len(f)] + f + rest, "(first = bytes before the first NUL/separator, rest = bytes after it)")
     c.sample({"op": "Cstrcmp", "a": repr(bytes(pairs[-3][0])), "b": repr(bytes(pairs[-3][1])), "sign": sgn(ref_strcmp(cprefix(pairs[-3][0]), cprefix(pairs[-3][1])))})
+
+    # ------------------------------------------------------------------ coverage-guided fuzzing (thorough tier)
+    if thorough:
+        import re, shutil
+        secs = int(os.environ.get("VERIF_FUZZ_SECONDS", "90"))
+        gd = os.path.join(vf.ROOT, "go", "impl")
+        rc, out = vf.sh(["go", "test", "-tags", "verif", "-run", "^$", "-fuzz", "FuzzC18", "-fuzztime", "%ds" % secs, "./cmd/implrun"],
+                        cwd=gd, env=vf.GOENV, timeout=secs + 900)
+        execs = [int(x) for x in re.findall(r"execs: (\d+)", out)]
+        hits = re.findall(r"C18FUZZ (\w+) case=(.*?) what=(.*)", out)
+        c.cov["fuzz"] = {"cmd": "go test -tags verif -run ^$ -fuzz FuzzC18 -fuzztime %ds ./cmd/implrun" % secs, "execs": max(execs) if execs else 0,
+                         "new_interesting": max([int(x) for x in re.findall(r"total: (\d+)", out)] or [0]), "failures": len(hits)}
+        c.count(max(execs) if execs else 0, "coverage-guided fuzzing")
+        for kind, case, what in hits:
+            c.violation("fuzz-%s-op%s" % (kind, case.split("|")[0]), "fuzzing: %s on %s: %s" % (kind, case, what.strip()), {"cases": [case], "expected": "status 0 and the helper's predicate", "got": what.strip()})
+        td = os.path.join(gd, "cmd", "implrun", "testdata")
+        if os.path.isdir(td):
+            shutil.rmtree(td)                       # failing inputs are kept as replays, not in the source tree
+        if rc != 0 and not hits:
+            c.broken.append({"kind": "fuzz", "where": "go test -fuzz FuzzC18", "theorem": "fuzz run completes", "log": out[-1500:]})
+
+    # ------------------------------------------------------------------ extraction cross-check (run_case by vm_compute inside Coq)
+    if model:
+        zl = lambda ts: "[" + "; ".join(t if not t.startswith("-") else "(%s)" % t for t in ts) + "]"
+        src = ["From Verif Require Import Base.Common Model.C18.", "Definition cases : list (list (list Z)) := ["]
+        src.append(";\n".join("  [" + "; ".join(zl(g.split()) for g in ln.split("|")) + "]" for ln, _ in xcheck))
+        src += ["].", "Definition expected : list (list Z) := ["]
+        src.append(";\n".join("  " + zl(o.split()) for _, o in xcheck))
+        src += ["].", "Example extraction_agrees : map run_case cases = expected.", "Proof. vm_compute. reflexivity. Qed."]
+        d = os.path.join(vf.BUILD, "C18")
+        open(os.path.join(d, "cases.v"), "w").write("\n".join(src) + "\n")
+        rc, out = vf.sh(["bash", "-c", "ulimit -s unlimited 2>/dev/null; timeout 600 coqc -Q %s Verif cases.v" % vf.COQ], cwd=d)
+        c.cov["extraction_crosscheck"] = {"cases": len(xcheck), "agrees": rc == 0}
+        if rc != 0:
+            c.broken.append({"kind": "extraction", "where": "build/C18/cases.v", "theorem": "extracted model = run_case evaluated by vm_compute on %d sampled cases" % len(xcheck), "log": out[-1500:]})
 
     c.finish(rule="exhaustive: every string up to the stated length over a 16-byte alphabet (NUL, letters of both cases, digit, ';', 'm', 'H', '[', ESC, blank, LF, CR, 0x80, 0xA4, 0xFE) through every unary helper, "
                   "every pair of strings up to length 3 over a 5/7-byte alphabet through the binary helpers, all byte values through the per-byte helpers; plus PRNG(seed) strings of length 5..90 "
